@@ -167,6 +167,28 @@ class SBool:
 
     __radd__ = __add__
 
+    def __sub__(self, o):
+        return self._r() - o
+
+    def __rsub__(self, o):
+        return o - self._r()
+
+    def __neg__(self):
+        return -self._r()
+
+    def __truediv__(self, o):
+        return self._r() / o
+
+    def __float__(self):
+        return float(bool(self))
+
+    def astype(self, dtype, *a, **k):
+        if dtype in (float, np.float64):
+            return self._r()
+        if dtype in (bool, np.bool_):
+            return bool(self)
+        return int(bool(self))
+
     def __repr__(self):
         return f"SBool({self.e})"
 
